@@ -21,8 +21,11 @@ package bfe_http2
 
 import (
 	"fmt"
+	"io"
 	"strings"
+	"sync"
 	"testing"
+	"testing/synctest"
 	"time"
 
 	"github.com/bfenetworks/bfe/verifkit/vk"
@@ -69,6 +72,7 @@ type c35model struct {
 	connWin  int64
 	seq      int
 	stalled  bool
+	gate     *c35gate // gate family: frame-granular write gate in front of the server's Framer
 	unjudged bool // outcomes are not attributed any more (stall family, or after a violation)
 	panicked bool
 }
@@ -489,6 +493,34 @@ const c35fit = c35maxWin - 65535
 
 var c35malformed = []string{"ok", "nometh", "duppath", "pseudoafter", "unkpseudo", "status", "emptypath", "upper", "conn", "tegzip", "tetrailers", "trailer"}
 
+// c35gate sits between the server's Framer and its buffered conn writer ("gate" family). While it
+// is shut, the write of the next server frame parks inside the frame-write goroutine: the frame
+// has been started (startFrameWrite) but its result has not reached the serve loop (wroteFrame),
+// so client frames and handler actions are processed in that window.
+type c35gate struct {
+	w    io.Writer
+	mu   sync.Mutex
+	cond *sync.Cond
+	shut bool
+}
+
+func (g *c35gate) Write(p []byte) (int, error) {
+	g.mu.Lock()
+	for g.shut {
+		g.cond.Wait()
+	}
+	g.mu.Unlock()
+	return g.w.Write(p)
+}
+
+func (g *c35gate) set(shut bool) {
+	g.mu.Lock()
+	g.shut = shut
+	g.cond.Broadcast()
+	g.mu.Unlock()
+	synctest.Wait()
+}
+
 // c35alphabet lists the enabled events of a family in the current state.
 func c35alphabet(fam string, e *h2env, m *c35model) []c35ev {
 	var evs []c35ev
@@ -540,6 +572,10 @@ func c35alphabet(fam string, e *h2env, m *c35model) []c35ev {
 		add(c35H(1, "ok", true), c35H(1, "ok", false), c35H(3, "ok", true), c35D(1, true), c35R(1), c35M("PING", 0),
 			c35ev{name: c35b(m.stalled, "UNSTALL", "STALL"), kind: "STALL"})
 		hops = []string{"RET", "READ", "WF"}
+	case "gate":
+		add(c35H(1, "ok", true), c35H(1, "ok", false), c35H(3, "ok", true), c35R(1), c35W(1, 1, "1"),
+			c35ev{name: c35b(m.gate != nil && m.gate.shut, "UNGATE", "GATE"), kind: "GATE"})
+		hops = []string{"RET", "HWF"}
 	default:
 		panic("c35: family " + fam)
 	}
@@ -551,10 +587,10 @@ func c35alphabet(fam string, e *h2env, m *c35model) []c35ev {
 	}
 	e.mu.Unlock()
 	for i, h := range hs {
-		// In the stall family the completion of a handler command can depend on the order in which
+		// In the stall and gate families the completion of a handler command can depend on the order in which
 		// the serve loop's select picks simultaneously ready channels (not controllable), so the
 		// alphabet must not depend on it: commands to a busy/finished handler are no-ops there.
-		if h == nil || (fam != "stall" && (h.done || h.busy || h.cmdsClosed)) {
+		if h == nil || (fam != "stall" && fam != "gate" && (h.done || h.busy || h.cmdsClosed)) {
 			continue
 		}
 		for _, op := range hops {
@@ -900,13 +936,21 @@ func c35step(r *vk.Run, id string, hist []string, e *h2env, m *c35model, ev c35e
 	judged := !m.unjudged && !m.goaway
 	switch ev.kind {
 	case "STALL":
+		m.unjudged = true
 		m.stalled = !m.stalled
 		e.setStall(m.stalled)
 		frames := e.recv()
 		c35book(e, m, frames)
 		c35checkPanic(r, id, "stall", hist, e, m)
 		return
-	case "RET", "READ", "WF":
+	case "GATE":
+		m.unjudged = true // server frames are delayed from here on: outcomes cannot be attributed
+		m.gate.set(!m.gate.shut)
+		frames := e.recv()
+		c35book(e, m, frames)
+		c35checkPanic(r, id, c35b(m.gate.shut, "gate", "ungate"), hist, e, m)
+		return
+	case "RET", "READ", "WF", "HWF":
 		if ev.h.busy {
 			ev.h.poll()
 		}
@@ -921,6 +965,13 @@ func c35step(r *vk.Run, id string, hist []string, e *h2env, m *c35model, ev c35e
 		case "READ":
 			ev.h.do(h2cmd{op: "read", n: 64})
 		case "WF":
+			if _, blocked := ev.h.do(h2cmd{op: "write", n: 3}); !blocked {
+				ev.h.do(h2cmd{op: "flush"})
+			}
+		case "HWF":
+			// a response header makes the handler wait for its HEADERS frame before it produces
+			// DATA, so at most one internal channel of the serve loop becomes ready at a time
+			ev.h.do(h2cmd{op: "header", k: "x-c35", v: "1"})
 			if _, blocked := ev.h.do(h2cmd{op: "write", n: 3}); !blocked {
 				ev.h.do(h2cmd{op: "flush"})
 			}
@@ -974,6 +1025,11 @@ func c35step(r *vk.Run, id string, hist []string, e *h2env, m *c35model, ev c35e
 // c35finish ends an execution: the connection must still serve (PING probe) or have ended with
 // GOAWAY / close; the serve loop must not have panicked, also not while shutting down.
 func c35finish(r *vk.Run, id string, hist []string, e *h2env, m *c35model) {
+	if m.gate != nil && m.gate.shut {
+		m.gate.set(false)
+		c35book(e, m, e.recv())
+		c35checkPanic(r, id, "ungate", hist, e, m)
+	}
 	if m.stalled {
 		m.stalled = false
 		e.setStall(false)
@@ -1009,6 +1065,9 @@ func c35finish(r *vk.Run, id string, hist []string, e *h2env, m *c35model) {
 // c35settle lets the 50 ms sleep of an error GOAWAY write finish: the fake clock stops once the
 // bubble's main goroutine has exited, so no sleeper may be left behind.
 func c35settle(e *h2env, m *c35model) {
+	if m.gate != nil && m.gate.shut {
+		m.gate.set(false)
+	}
 	if m.stalled {
 		m.stalled = false
 		e.setStall(false)
@@ -1030,8 +1089,13 @@ func c35exec(t *testing.T, r *vk.Run, fam string, depth int, replayLen int, ch *
 		e.fr.AllowIllegalWrites = true
 		e.recv()
 		m := c35newModel(limit)
-		if fam == "stall" {
-			m.unjudged = true
+		if fam == "gate" {
+			g := &c35gate{}
+			g.cond = sync.NewCond(&g.mu)
+			if !e.onServe(func(sc *serverConn) { g.w = sc.framer.w; sc.framer.w = g }) {
+				panic("c35: cannot install the write gate")
+			}
+			m.gate = g
 		}
 		var hist []string
 		post := 0
@@ -1106,6 +1170,7 @@ func TestVerifC35(t *testing.T) {
 		{"wu0", r.Pick(4, 5)},
 		{"ctrl", r.Pick(3, 4)},
 		{"stall", r.Pick(4, 6)},
+		{"gate", r.Pick(5, 6)},
 	}
 	for _, f := range fams {
 		replayLen := -1
